@@ -245,6 +245,13 @@ func (x *Exec) trackApply(b int) {
 	for _, txn := range nd.Block.Transactions {
 		delete(x.keep, txn.ID())
 	}
+	// the chain outgrew the hardfork regime the transaction is valid in (v1 at the require height, v1
+	// signatures of the epoch before the allow height)
+	for id := range x.keep {
+		if _, hi := x.S.Window(x.S.ByID[id]); int(nd.Height) > hi {
+			delete(x.keep, id)
+		}
+	}
 	for _, txn := range nd.Block.V2Transactions() {
 		delete(x.keep, txn.ID())
 	}
@@ -1457,11 +1464,19 @@ func (x *Exec) rebaseShouldSucceed(set []int, evset []map[string]any, from, to i
 }
 
 // TxSet calls V2TransactionSet(basis, instance of t at basis).
-func (x *Exec) TxSet(name, basis int) {
+func (x *Exec) TxSet(name, basis int) { x.txSet(name, basis, true) }
+
+// TxSetNow asks right away, also when the tip moved and nobody looked at the pool since (the call
+// revalidates the pool itself).
+func (x *Exec) TxSetNow(name, basis int) { x.txSet(name, basis, false) }
+
+func (x *Exec) txSet(name, basis int, look bool) {
 	if x.dead {
 		return
 	}
-	x.ensureFresh()
+	if look {
+		x.ensureFresh()
+	}
 	lb := x.S.Ledger(x.Tip)
 	if basis >= 1 && basis <= x.S.NumAbs() {
 		lb = x.S.Ledger(basis)
@@ -1507,7 +1522,7 @@ func (x *Exec) TxSet(name, basis int) {
 		// the assembled set must be acceptable as it stands (parents first, proofs at the tip)
 		// (only claimed when the caller's transaction is itself valid on top of the pool: basis = tip,
 		// every input either unspent at the tip or created by a pooled v2 transaction)
-		complete := basis == x.Tip
+		complete := basis == x.Tip && x.fresh // (x.p2 is the pool as it is now)
 		for _, in := range x.S.Tx(name).Ins {
 			if ledgerHas(lt, in) {
 				continue
@@ -1539,6 +1554,40 @@ func (x *Exec) TxSet(name, basis int) {
 		}
 		if !sameV2(poolBefore, x.N.CM.V2PoolTransactions()) {
 			x.mismatch("audit:c14:alias:txset-parents", "mutating the set returned by V2TransactionSet changed the pool")
+		}
+	}
+	if r == "ok" && basis == x.Tip {
+		// the pooled ancestors that must still be there (accepted, not confirmed, no input spent or
+		// reverted) belong to the set, whether or not anybody looked at the pool since the last block
+		need := map[types.Hash256]bool{}
+		for _, in := range x.S.Tx(name).Ins {
+			need[in] = true
+		}
+		got := map[int]bool{}
+		for _, n := range ids {
+			got[n] = true
+		}
+		for changed := true; changed; {
+			changed = false
+			for id := range x.keep {
+				p := x.S.ByID[id]
+				if !p.V2 || got[-p.Name] {
+					continue
+				}
+				for _, o := range p.Outs {
+					if need[o] {
+						got[-p.Name] = true // visited
+						for _, in := range p.Ins {
+							need[in] = true
+						}
+						changed = true
+						if !got[p.Name] {
+							x.mismatch("audit:c13:txset:kept-ancestor-missing", "V2TransactionSet(transaction %d) returned %v without its pooled ancestor %d, which was accepted, is not confirmed and had no input spent or reverted (tip %d)", name, ids, p.Name, x.Tip)
+						}
+						break
+					}
+				}
+			}
 		}
 	}
 	if !bytes.Equal(v2Bytes(before), v2Bytes(txn)) {
